@@ -32,11 +32,15 @@ class SpineImporterStub:
 
 
 class ImporterTableStub:
-    def __init__(self, importer):
-        self.importer = importer
+    """the importer table: the importer registered for the header text of the spine the cell descends from, and a different importer
+    (one that returns another token) for every other header text -- an importer looked up under another spine's header is seen"""
+    def __init__(self, key, importer, other):
+        self.key, self.importer, self.other = key, importer, other
 
     def get(self, key, default=None):
-        return self.importer
+        if key == self.key:
+            return self.importer
+        return self.other
 
 
 def mk_cell_state(g):
@@ -45,7 +49,7 @@ def mk_cell_state(g):
     importer = None if outcome == 'unknown-header' else SpineImporterStub(outcome == 'raises', token)
     # the cells of the row above: ordinary cells, or the cells of a spine-operator record (a split / join just happened)
     imp = mk_full_importer(g, parents=g.choice('row above', ['cells', 'operators']))
-    table = ImporterTableStub(importer)
+    table = ImporterTableStub(None, importer, SpineImporterStub(False, mk_any_token(g, 'SimpleToken', 'other_spine')))
     errors = g.mlist('errors', lambda e: mk_simple_like(e, 'ErrorToken', 'err'))
     mst = g.mlist('mst', lambda e: e.int('stage', 0))
     imp._importers, imp.errors = table, errors
@@ -70,6 +74,8 @@ class run_cell_step:
         icolumn = g.int('icolumn', 0)
         is_barline = g.bool('is_barline')
         prev = imp._prev_stage_parents
+        if icolumn < len(prev):
+            imp._importers.key = prev[icolumn].header_node.token.encoding       # the header of the spine this cell descends from
         return {'self': imp, 'row': [column], 'icolumn': icolumn, 'column': column, 'is_barline': is_barline,
                 '_outcome': outcome, '_imported': token, '_prev': prev, '_next_before': imp._next_stage_parents.copy(),
                 '_errors_before': imp.errors.copy(), '_was_barline': is_barline,
@@ -136,19 +142,25 @@ class run_row_step:
     rule) its stage is appended to the measure index -- exactly once per row -- and the last measure number is the size of the index
     (C07, C19)."""
     step = 'for row in'
-    assumes = (A_STUBS, 'domain: empty rows, global comment rows and rows of one cell (the column loop is unrolled)')
+    assumes = (A_STUBS, 'domain: empty rows, global comment rows, rows of one cell, and rows of one cell followed by an empty or blank surplus cell '
+                        'under one live spine path (the column loop is unrolled)')
 
     def inputs(g):
         imp, outcome, token = mk_cell_state(g)
-        kind = g.choice('row', ['empty', 'one cell', 'global comment'])
+        kind = g.choice('row', ['empty', 'one cell', 'global comment', 'one cell and a blank surplus cell'])
         empty = kind == 'empty'
+        surplus = kind == 'one cell and a blank surplus cell'
+        blank = g.choice('blank', ['', ' '])
         column = g.str_sym('column', CELL_CORPUS)
         if kind == 'global comment':
             # '!!' + any text + a last character that is not a blank (the row is stripped before it becomes the token text)
             column = '!!' + g.str_sym('comment.text', ['!COM: Bach', ' a comment']) + g.choice('comment.last', ['h', ':', '.'])
         mst = imp._document.measure_start_tree_stages
         g.assume(len(imp._next_stage_parents) > 0)        # a row after the header row: there are cells above
-        return {'self': imp, 'reader': None, 'row': [] if empty else [column], '_above': imp._next_stage_parents[0],
+        imp._importers.key = imp._next_stage_parents[0].header_node.token.encoding     # the header of the spine of the (only) cell
+        if surplus:
+            g.assume(len(imp._next_stage_parents) == 1)   # one live spine path: the second cell is one too many, blank or not
+        return {'self': imp, 'reader': None, 'row': [] if empty else ([column, blank] if surplus else [column]), '_above': imp._next_stage_parents[0], '_surplus': surplus,
                 '_outcome': outcome, '_column': column, '_empty': empty, '_comment': kind == 'global comment',
                 '_pre_header_node': imp._last_node_previous_to_header, '_prev_before': imp._prev_stage_parents, '_mst_before': mst.copy(), '_next_before': imp._next_stage_parents,
                 '_stage_before': imp._tree_stage, '_line_before': imp._row_number,
@@ -163,6 +175,10 @@ class run_row_step:
     def modifies_objs(self, target, above, pre_header_node):
         return ([self, self.errors, self._tree.stages, self._document.measure_start_tree_stages, 'Node.NextID', above.children,
                  pre_header_node.children] + ([] if target is None else [target]))
+
+    def raises(surplus):
+        # a line with more cells than live spine paths is refused -- an empty or blank cell is a cell (C02)
+        return {'ValueError': surplus}
 
     def post_counters(self, empty, stage_before, line_before):
         return conj(self._row_number == line_before + 1, self._tree_stage == (stage_before if empty else stage_before + 1))
